@@ -528,6 +528,8 @@ class Facts:
         from .flatten import flatten
         from .canon import canonicalize
         j = canonicalize(j)
+        from .newtypes import transparent
+        j, self.new_structs = transparent(j)
         j, helpers = flatten(j)
         self.helpers = helpers
         self.j = j
